@@ -12,7 +12,7 @@ META = {
     "technique": "Coq proofs (induction, permutation invariance of the coefficient bookkeeping) over a Gallina transcription of the splitting/reassembly code + vm_compute correspondence with an exact fake executor + end-to-end differential on default.qubit",
     "design_ref": "DESIGN.md §3 C20, §5 item 6",
     "text": "Theorems (Props/C20.v, all lists, all executors E : measurement-key -> Q): split_reassemble_linear - splitting a measurement list into single-term measurements (dedup across measurements, identity/offset handling), executing them with ANY E and reassembling with the transcription of _processing_fn_no_grouping/_sum_terms gives, position by position, E extended linearly (E(I)=1) to the original measurements; grouped_same - for ANY partition of the distinct single-term measurements into tapes the transcription of _split_using_qwc_grouping + _processing_fn_with_grouping (incl. squeeze of singleton groups) succeeds and gives the same values; rejects_nonlinear - the split raises exactly when some non-expval measurement has an observable that simplifies to a sum, everything else non-expval is passed through whole with coefficient 1; broadcast_roundtrip - _split_operations yields, in order, the b-th slice of every batched parameter and the processing function re-stacks results[b][m] as [m][b]. Tie K: generated measurement lists (sums with identity terms, offsets, nested scalar multiples, duplicates across measurements, Hermitian/Projector factors, var/probs/sample/counts, rejected inputs) are transformed by the REAL split_to_single_terms / split_non_commuting (default, qwc, wires, None); the produced tapes are executed by a dyadic table E, the REAL post-processing is applied, and the exact result must equal (i) E applied to the original AST (independent python oracle), (ii) the Coq model's tapes, recorded grouping (checked to be a partition; commutation of every group validated) and values. End-to-end: pyth_angle circuits on default.qubit, results after transform+postprocessing vs direct execution (1e-9; sample shapes, counts totals) for every transform of the property; rejected inputs must raise.",
-    "note": "Modelled, not verified: obs.terms() / simplify() are oracles recorded from the run (operator arithmetic is covered by other properties); MeasurementProcess equality is modelled by equality of (kind, scalar, word). The single-Sum path _split_ham_with_grouping is covered by the same model with its grouping recorded (its group_idx bookkeeping is not transcribed: a user-set grouping_indices containing an identity-only group makes the real post-processing raise IndexError; compute_grouping never produces that). diagonalize_measurements, sign_expand and sample/counts under splitting are covered by the end-to-end differential only (no theorem about basis-change gates here). Partitioned shots (shot_vector_support), shot_dist and autograd/jax interfaces are not exercised. sign_expand var mode is documented as the variance of the estimator and is not compared. Known findings reported under stable keys: sign_expand analytic mode returns wrong expectation values (drops (lmin+lmax)/2, conjugated projectors); diagonalize_measurements(to_eigvals=True) on composite observables whose operands share wires.",
+    "note": "Modelled, not verified: obs.terms() / simplify() are oracles recorded from the run (operator arithmetic is covered by other properties); MeasurementProcess dictionary identity is modelled by equality of (kind, scalar, word in the operator's wire order) (the real __hash__ contains the wire tuple, so expval(Y(0)@X(1)) and expval(X(1)@Y(0)) are measured separately: harmless, reproduced by the model). The single-Sum path _split_ham_with_grouping is covered by the same model with its grouping recorded (its group_idx bookkeeping is not transcribed: a user-set grouping_indices containing an identity-only group makes the real post-processing raise IndexError; compute_grouping never produces that). diagonalize_measurements, sign_expand and sample/counts under splitting are covered by the end-to-end differential only (no theorem about basis-change gates here). Partitioned shots (shot_vector_support), shot_dist and autograd/jax interfaces are not exercised. sign_expand var mode is documented as the variance of the estimator and is not compared; sign_expand expval is compared to 1e-6 (it builds projectors in complex64). For a batch of size 1 default.qubit's direct result drops the batch axis of some measurements, so batch_params/batch_input with B=1 are compared on values only. Known findings reported under stable keys: sign_expand analytic mode returns wrong expectation values (drops (lmin+lmax)/2, conjugated projectors); diagonalize_measurements(to_eigvals=True) on composite observables whose operands share wires.",
     "assumptions": ["obs.terms()/simplify()/MeasurementProcess.__eq__ behave as recorded (oracles)",
                     "fake executor values are dyadic so float post-processing is exact"],
     "trusted": ["hand-written model coq/Disc/SplitModel.v tied to /repo by correspondence only",
